@@ -86,7 +86,16 @@ class SpecificationRuleExtractor:
             if len(children) != 1:
                 raise self._missing_rule_error(parent, children) from e
         else:
-            return strategy(self.classdb.get_class(parent))
+            rule = strategy(self.classdb.get_class(parent))
+            if (
+                len(children) == 1
+                and isinstance(rule, Rule)
+                and len(rule.children) > 1
+                and rule.is_equivalence()
+            ):
+                # A one way rule whose other children are empty
+                return rule.to_equivalence_rule()
+            return rule
         # From now on we are looking for a two way strategy
         assert len(children) == 1
         try:
